@@ -593,7 +593,6 @@ def selftest(seed):
     assert not _r['ok'], 'Apalache accepted a mutated order relation'
     print('selftest C05: Apalache refutes the mutated order relation (conjunct %s of Inv)' % _r['violated_conjunct'])
     import copy
-    import os
     events = _run_chunk((60, seed))
     good = [e for e in events if sum(len(s['matches']) for s in e['steps']) >= 2 and not e.get('err')]
     withgeo = [e for e in good if any(g['kind'] in ('angle', 'dih', 'dihp') for g in e['py']['geo'])]
